@@ -308,3 +308,57 @@ func ObserveUninstall(m *Materialised) ([]string, error) {
 	}
 	return kinds, nil
 }
+
+// ---- the cluster-connected route ---------------------------------------------------------
+
+// ObserveRoute renders the case once through an action.Configuration that HAS a cluster connection
+// (RESTClientGetter set, real kube.Client over the simulated API server, --dry-run=server): renderResources
+// then builds the engine with engine.New(restConfig). The outcome must equal the client-only render.
+func ObserveRoute(a *Acc, m *Materialised, seed int64) {
+	a.mu.Lock()
+	first := a.First
+	a.mu.Unlock()
+	if first == nil {
+		return
+	}
+	ch, err := m.Load("files", rngFor(seed, "route:"+a.Line.ID))
+	if err != nil {
+		return
+	}
+	sim := simcluster.New()
+	f := &simcluster.Factory{RT: sim.Transport(1), Namespace: batchNS}
+	mem := driver.NewMemory()
+	mem.SetNamespace(batchNS)
+	cfg := &action.Configuration{
+		RESTClientGetter: &simcluster.Getter{F: f},
+		KubeClient:       &noWait{&kube.Client{Factory: f, Namespace: batchNS}},
+		Releases:         storage.Init(mem),
+		Capabilities:     chartutil.DefaultCapabilities.Copy(),
+	}
+	in := action.NewInstall(cfg)
+	in.DryRunOption = "server"
+	in.ReleaseName, in.Namespace = "rel", "ns"
+	in.SubNotes, in.EnableDNS = m.Case.SubNotes, m.Case.DNS
+	in.WaitStrategy = kube.HookOnlyStrategy
+	var o One
+	rel, err := in.Run(ch, map[string]interface{}{})
+	o.fill(m, rel, err)
+	if got, want := o.Triple(), first.Triple(); got != want {
+		detail := ""
+		if o.Err != first.Err {
+			detail = " (" + o.ErrText + ")"
+		} else if len(o.Manifest) > 0 && len(first.Manifest) == len(o.Manifest) {
+			for i := range o.Manifest {
+				if o.Manifest[i] != first.Manifest[i] {
+					detail = fmt.Sprintf(" (document d-%d-%d: payload %q instead of %q)", o.Manifest[i].P, o.Manifest[i].I, o.Manifest[i].V, first.Manifest[i].V)
+					break
+				}
+			}
+		}
+		a.noteDiff(&a.routeDiff, "install with a cluster connection, --dry-run=server"+detail, got, want)
+		return
+	}
+	a.mu.Lock()
+	a.Runs++
+	a.mu.Unlock()
+}
